@@ -10,9 +10,8 @@ is taken from the library's own function (git_objects.<kind>_git_object,
 url.encode()), and (kind, attrs manifest, raw manifest, id argument[, change])
 is sent to the extracted generic model, run with the executable SHA-1 of
 lib/Sha1.v as the hash.  For every built / evolved object both sides are
-compared on: id, compute_hash(), check() verdict class, swhid(), presence of
-raw_manifest in to_dict(), and on the exception class when construction or
-evolve raises.  Independently (oracle) the property is evaluated on the
+compared on: id, compute_hash(), check() verdict class, swhid(), and on the
+exception class when construction or evolve raises.  Independently (oracle) the property is evaluated on the
 implementation with hashlib only.
 
 One case = one object + one family of scenarios:
@@ -174,7 +173,7 @@ def gen_specs(rng, kind, n):
         if kind == "release":
             pool = [c for c in pool if not (c["author"] is None and c["date"] is not None)]
             # make sure some releases without target (no manifest) are present
-            notarget = [c for c in pool if c["target"] is None][: max(1, n // 20)]
+            notarget = [c for c in pool if c["target"] is None][: max(2, n // 12)]
             pool = notarget + [c for c in pool if c["target"] is not None]
         else:
             pool = [c for c in pool if _valid_rev(c)]
@@ -184,20 +183,18 @@ def gen_specs(rng, kind, n):
 
 
 def gen(rng, tier):
-    n_obj = 36 if tier == "quick" else 450
-    small, big = [], []
-    for kind in KINDS:
-        for spec in gen_specs(rng, kind, n_obj):
-            for what in ("evolve", "raw"):
-                small.append({"kind": kind, "spec": spec, "what": what, "seed": rng.getrandbits(32)})
-            big.append({"kind": kind, "spec": spec, "what": "ids", "seed": rng.getrandbits(32)})
-    # the small families first (the evidence samples are taken from the head of the stream)
-    inter = []
-    per = max(1, len(small) // max(1, len(big)))
-    for i, b in enumerate(big):
-        inter += small[i * per:(i + 1) * per] + [b]
-    inter += small[len(big) * per:]
-    return small[:8] + [c for c in inter if c not in small[:8]]
+    n_obj = 48 if tier == "quick" else 450
+    specs = {kind: gen_specs(rng, kind, n_obj) for kind in KINDS}
+    cases = []
+    # round-robin over the kinds, so that every prefix of the stream covers all seven; per object the two
+    # small families first, then the 170-id family
+    for i in range(n_obj):
+        for kind in KINDS:
+            for what in ("evolve", "raw", "ids"):
+                cases.append({"kind": kind, "spec": specs[kind][i], "what": what, "seed": rng.getrandbits(32)})
+    # the evidence samples are taken from the head of the stream: keep them small
+    head = [c for c in cases[:3 * len(KINDS)] if c["what"] != "ids"][:6]
+    return head + [c for c in cases if not any(c is h for h in head)]
 
 
 def nontrivial(c):
@@ -205,7 +202,12 @@ def nontrivial(c):
 
 
 def classify(c):
-    return ["kind=" + c["kind"], "family=" + c["what"]]
+    ks = ["kind=" + c["kind"], "family=" + c["what"]]
+    if c["kind"] == "release" and c["spec"].get("target") is None:
+        ks.append("no-manifest(release without target)")
+    if c["what"] == "raw":
+        ks.append("raw:needed+unneeded" if c["kind"] in ("release", "revision", "directory") else "raw:class-without-field")
+    return ks
 
 
 # ------------------------------------------------------------------ building the real objects
@@ -269,10 +271,6 @@ def observe(x):
         o["swhid"] = str(x.swhid())
     except Exception as e:
         o["swhid"] = "!" + exc_class(e)
-    try:
-        o["rawkey"] = int("raw_manifest" in x.to_dict())
-    except Exception as e:
-        o["rawkey"] = "!" + exc_class(e)
     return o
 
 
@@ -288,7 +286,7 @@ def _construct(cls, kw, raw=_ABSENT, idv=b""):
     if raw is not _ABSENT:
         extra["raw_manifest"] = raw
     if idv != b"" or raw is _ABSENT:
-        extra["id"] = idv
+        extra["id"] = idv          # id=b"" is passed explicitly in one half of the no-id cases, left out in the other
     return cls(**kw, **extra)
 
 
@@ -379,7 +377,7 @@ def alt_values(kind, name, cur, a, rng):
             out.append(d2)
     else:
         out.append(cur)
-    if cur is not None and "Optional" in str(a.type) or (a.default is None and cur is not None):
+    if cur is not None and (str(a.type).startswith("typing.Optional") or a.default is None):
         out.append(None)
     return out
 
@@ -566,7 +564,7 @@ def _canon_obs(st):
     sw = o["swhid"]
     if sw.startswith("swh:1:"):
         sw = sw[len("swh:1:"):]
-    return "ok %s %s %s %s %s" % (o["id"], o["ch"], o["check"], sw, o["rawkey"])
+    return "ok %s %s %s %s" % (o["id"], o["ch"], o["check"], sw)
 
 
 def compare(c, ires, mres):
@@ -671,8 +669,6 @@ def oracle(c, ires, mres):
             want_sw = "swh:1:%s:%s" % (tag, o["id"]) if len(o["id"]) == 40 else "!ValidationError"
             if o["swhid"] != want_sw:
                 return lab + "swhid() is %s, expected %s" % (o["swhid"], want_sw)
-        if o["rawkey"] != int(raw is not None):
-            return lab + "to_dict() raw_manifest key presence is %s" % o["rawkey"]
     return None
 
 
